@@ -72,6 +72,10 @@ def type_family(tier, seed):
         ('opt_u8', Opt8), ('result', Res),
         ('arr_enum', Array(E_unit, 2)), ('tup_enum_last', Tuple([U8, E_same])),
     ]
+    # one hand-written AbiEncode/AbiDecode impl exists per tuple arity in codec.sw: cover every arity the
+    # current source implements (elements of differing, non-word sizes so that the tuple is never trivially
+    # encodable and a swapped/duplicated/skipped element index changes the bytes); several arities per program.
+    fam += tuple_arity_family(tier)
     if tier == 'thorough':
         rng = random.Random(seed * 101 + 3)
         prim = [U8, U16, U32, U64, BOOL, B256T, StrArr(2)]
@@ -92,6 +96,39 @@ def type_family(tier, seed):
                 return Enum(f'RE{i}_{rng.randrange(10**6)}', [(f'V{j}', v) for j, v in enumerate(vs)] + [('U', vs[0])])
             fam.append((f'rand{i}', gen(3)))
     return fam
+
+
+def tuple_arities():
+    """arities of the tuple impls of AbiEncode found in the current tree's codec.sw"""
+    from .common import REPO
+    try:
+        src = open(os.path.join(REPO, 'sway-lib-std/src/codec.sw')).read()
+    except OSError:
+        return []
+    ar = set()
+    for m in re.finditer(r'^impl<([A-Z, ]+)> AbiEncode for \(([A-Z, ]+),?\)', src, re.M):
+        ar.add(len([x for x in m.group(2).split(',') if x.strip()]))
+    return sorted(ar)
+
+
+def tuple_arity_family(tier):
+    cyc = [U16, U8, U32, U64]
+    ars = [n for n in tuple_arities() if n >= 4]
+    groups, cur, tot = [], [], 0
+    for n in ars:
+        if cur and tot + n > 64:
+            groups.append(cur)
+            cur, tot = [], 0
+        cur.append(n)
+        tot += n
+    if cur:
+        groups.append(cur)
+    out = []
+    for g in groups:
+        ts = [Tuple([cyc[(i + n) % 4] for i in range(n)]) for n in g]
+        ty = ts[0] if len(ts) == 1 else Tuple(ts)
+        out.append((f'tupn_{g[0]}_{g[-1]}', ty))
+    return out
 
 
 def decls_for(t):
@@ -227,6 +264,9 @@ def construct_cases(tier, seed):
             continue
         args = []
         e = build_expr_for(ty, args, [0])
+        if len(args) > max(tuple_arities() or [26]):
+            # main's arguments are decoded as one tuple: more arguments than the largest tuple impl is not a valid program
+            continue
         body = expr_sway(e, 1)
         # generic std enums are written Option::Some(..) / Result::Ok(..)
         body = body.replace('Option<u8>::', 'Option::').replace('Result<u64, bool>::', 'Result::')
